@@ -218,6 +218,10 @@ m("c13-remove-edges-seed-falsy", ["C13"], U, "    A = A.astype(bool).astype(int)
 m("c14-lganm-sample-no-copy-W", ["C14"], L, "        W = self.W.copy()\n", "        W = self.W\n", note="a do-intervention then zeroes a column of the model's own W")
 m("c14-lganm-ctor-no-copy", ["C14"], L, "        self.W = W.copy()\n", "        self.W = W\n", note="later changes to the caller's W reach the model")
 m("c14-lganm-ctor-variances-no-copy", ["C14"], L, "            self.variances = variances.copy()", "            self.variances = variances")
+m("c14-lganm-ctor-copy-only-if-same-object", ["C14"], L, "        self.W = W.copy()\n", "        self.W = W.copy() if W.ndim == 2 and W.base is None else np.array(W, copy=False)\n",
+  note="a 0-d / 1-d W of a one-variable model (a view after atleast_2d) is stored without copy")
+m("c14-nd-ctor-mean-view-kept", ["C14"], "sempler/normal_distribution.py", "        self.mean = mean.copy()\n", "        self.mean = mean.copy() if mean.base is None else mean\n",
+  note="a 0-d mean array (np.mean(x)) becomes a view under atleast_1d and is stored without copy")
 m("c14-anm-ctor-no-copy", ["C14"], A_, "        self.A = deepcopy(A)", "        self.A = A")
 m("c14-anm-noise-list-shared", ["C14"], A_, "        self.noise_distributions = deepcopy(noise_distributions)", "        self.noise_distributions = noise_distributions")
 m("c14-marginal-returns-self", ["C14"], ND, "        X = np.atleast_1d(X)\n        # Compute marginal mean/variance", "        X = np.atleast_1d(X)\n        if len(X) == self.p and (X == np.arange(self.p)).all():\n            return self\n        # Compute marginal mean/variance")
